@@ -165,8 +165,10 @@ impl YamlConverter {
 
     pub fn write(&self, v: &Val, mut w: &mut dyn Write) -> ConvertResult {
         let jsn_val = self.convert_value(v)?;
+        // The serializer already ends the document with a newline. One more
+        // would become part of a trailing block scalar with keep chomping
+        // (the string "\n" is written as `|2+`).
         serde_yaml::to_writer(&mut w, &jsn_val)?;
-        writeln!(w)?;
         Ok(())
     }
 }
